@@ -70,11 +70,14 @@ func (ev *Ev) convert(v Value, to types.Type, at ast.Expr) Value {
 		return n
 	}
 	if _, ok := isSliceT(to); ok {
-		// string -> []byte
-		arr := u.allocRef(ev.st, "bytes")
+		// string -> []byte: the bytes are a function of the string (a fresh copy each time in Go; nobody mutates these copies in the verified code)
+		var arr string
 		ln := "0"
 		if v.S == SRef {
+			arr = app(u.declareFun("str2bytes", []Sort{SRef}, SRef), v.T)
 			ln = app("strlen", v.T)
+		} else {
+			arr = u.allocRef(ev.st, "bytes")
 		}
 		return u.withSet(Value{K: vSlice, Typ: to, Comp: map[string]Value{"#arr": scalar(arr, SRef, nil), "#len": intV(ln)}}, "")
 	}
@@ -621,6 +624,26 @@ func (u *Unit) callOpaque(ev *Ev, f Value, sig *types.Signature, args []Value, x
 	st.lets["panicked:"+ft] = boolV("false")
 	var res []Value
 	for i, t := range resultTypes(sig) {
+		if u.c != nil && u.c.Flags["purefn:"+name] && u.sortOf(t) != "" {
+			// a deterministic function value (stated assumption): its result is a function of the function and its arguments
+			sorts := []Sort{SRef}
+			ts := []string{ft}
+			for _, a := range args {
+				walkValue(a, "", func(path string, l Value) {
+					if strings.HasSuffix(path, "#set") || l.T == "" {
+						return
+					}
+					sorts = append(sorts, l.S)
+					ts = append(ts, l.T)
+				})
+			}
+			fn := u.declareFun(pureName("fnapp:"+name+fmt.Sprint(i), sorts), sorts, u.sortOf(t))
+			rv := scalar(app(fn, ts...), u.sortOf(t), t)
+			u.typeFacts(st, rv)
+			res = append(res, rv)
+			u.assumeNote("function value " + name + " is deterministic (same arguments, same result)")
+			continue
+		}
 		res = append(res, u.freshValue(t, fmt.Sprintf("ret_%s_%d", name, i), st))
 	}
 	st.lets["ret:"+ft] = Value{K: vTuple, Tuple: res}
@@ -704,6 +727,16 @@ func (u *Unit) callFunc(ev *Ev, x *ast.CallExpr, f *types.Func, recv *Value) Val
 	}
 	if f.Pkg() != nil && f.Pkg().Path() == "math" {
 		if v, ok := u.mathCall(ev, x, f); ok {
+			return v
+		}
+	}
+	if key == "sort.Slice" && len(x.Args) == 2 {
+		if u.sortSlice(ev, x) {
+			return Value{K: vTuple}
+		}
+	}
+	if key == "sort.Search" && len(x.Args) == 2 {
+		if v, ok := u.sortSearch(ev, x); ok {
 			return v
 		}
 	}
@@ -1517,4 +1550,83 @@ func (u *Unit) zeroWaitGroups(st *State, t types.Type, ref string) {
 			u.setFam(st, "G:wg", as, app("store", u.fam(st, "G:wg", as), app(fa, ref), "0"))
 		}
 	}
+}
+
+// sortSearch models sort.Search(n, func(i int) bool { return P(i) }) for a predicate literal that is a single return
+// expression: the result r is in [0, n], P(r) holds if r < n, and P is false below r. This is the library's documented
+// contract for a predicate that is monotone on [0, n) - monotonicity is emitted as an obligation of the caller.
+func (u *Unit) sortSearch(ev *Ev, x *ast.CallExpr) (Value, bool) {
+	lit, ok := ast.Unparen(x.Args[1]).(*ast.FuncLit)
+	if !ok || len(lit.Body.List) != 1 || len(lit.Type.Params.List) != 1 || len(lit.Type.Params.List[0].Names) != 1 {
+		return Value{}, false
+	}
+	ret, ok := lit.Body.List[0].(*ast.ReturnStmt)
+	if !ok || len(ret.Results) != 1 {
+		return Value{}, false
+	}
+	pname := lit.Type.Params.List[0].Names[0].Name
+	n := ev.expr(x.Args[0])
+	pred := func(at string) string {
+		sev := u.specEv(ev.st, lit.Body.Lbrace+1, u.name+" sort.Search predicate")
+		sev.binds[pname] = intV(at)
+		saved := len(ev.st.pc)
+		t := sev.expr(ret.Results[0]).T
+		ev.st.pc = ev.st.pc[:saved]
+		return t
+	}
+	u.nfresh++
+	a := fmt.Sprintf("a$%d", u.nfresh)
+	b := fmt.Sprintf("b$%d", u.nfresh)
+	u.emit(ev.st, "sorted@"+u.callOrdinal(x, "Search"), fmt.Sprintf("(forall ((%s Int) (%s Int)) (=> (and (<= 0 %s) (<= %s %s) (< %s %s) %s) %s))", a, b, a, a, b, b, n.T, pred(a), pred(b)),
+		"the predicate handed to sort.Search is monotone on [0, n) (e.g. the slice is sorted)")
+	r := u.fresh("search", SInt)
+	ev.st.assume(and(app("<=", "0", r), app("<=", r, n.T)))
+	ev.st.assume(implies(app("<", r, n.T), pred(r)))
+	u.nfresh++
+	j := fmt.Sprintf("j$%d", u.nfresh)
+	ev.st.assume(fmt.Sprintf("(forall ((%s Int)) (=> (and (<= 0 %s) (< %s %s)) (not %s)))", j, j, j, r, pred(j)))
+	u.eng.noteMeta(u, "sort.Search: least index with a true predicate, given the monotonicity obligation (trusted library contract)")
+	return intV(r), true
+}
+
+// sortSlice models sort.Slice(s, less): the elements of s are permuted (same length, same set view); when less is the
+// literal `return s[i] < s[j]` over the same slice expression the result is sorted ascending (trusted library contract).
+func (u *Unit) sortSlice(ev *Ev, x *ast.CallExpr) bool {
+	sv := ev.expr(x.Args[0])
+	if sv.K != vSlice {
+		return false
+	}
+	sl, ok := isSliceT(sv.Typ)
+	if !ok || u.sortOf(sl.Elem()) == "" {
+		return false
+	}
+	es := u.sortOf(sl.Elem())
+	key, as := ev.elemFam(typeKey(sl.Elem()), "", es)
+	cur := u.fam(ev.st, key, as)
+	fr := u.fresh("sorted", arraySort(SInt, es))
+	u.setFam(ev.st, key, as, app("store", cur, sv.Comp["#arr"].T, fr))
+	ascending := false
+	if lit, ok := ast.Unparen(x.Args[1]).(*ast.FuncLit); ok && len(lit.Body.List) == 1 && len(lit.Type.Params.List) >= 1 {
+		var names []string
+		for _, f := range lit.Type.Params.List {
+			for _, n := range f.Names {
+				names = append(names, n.Name)
+			}
+		}
+		if ret, ok := lit.Body.List[0].(*ast.ReturnStmt); ok && len(ret.Results) == 1 && len(names) == 2 {
+			want := fmt.Sprintf("%s[%s] < %s[%s]", exprString(x.Args[0]), names[0], exprString(x.Args[0]), names[1])
+			if exprString(ret.Results[0]) == want {
+				ascending = true
+			}
+		}
+	}
+	if ascending && es == SInt {
+		ev.st.assume(fmt.Sprintf("(forall ((a Int) (b Int)) (=> (and (<= 0 a) (<= a b) (< b %s)) (<= (select %s a) (select %s b))))", sv.Comp["#len"].T, fr, fr))
+	}
+	// every element afterwards is an element of the set view (a permutation keeps the set)
+	if st, ok := sv.Comp["#set"]; ok && st.T != "" {
+		ev.st.assume(fmt.Sprintf("(forall ((a Int)) (=> (and (<= 0 a) (< a %s)) (select %s (select %s a))))", sv.Comp["#len"].T, st.T, fr))
+	}
+	u.eng.noteMeta(u, "sort.Slice permutes the slice; sorted ascending for the literal less function s[i] < s[j] (trusted library contract)")
+	return true
 }
